@@ -296,6 +296,7 @@ def _plain(v, depth: int = 0) -> bool:
     return False
 
 
+_pristine_refs: list = []  # (object, {attribute: ("ref" | "dict" | "list", live object, shallow copy)})
 _pristine: list = []  # (object, {attribute: scalar value}) for every codec object reachable from the two registries
 
 
@@ -327,6 +328,18 @@ def _snapshot_registries(pa) -> None:
         if d is None:
             return
         _pristine.append((o, {k: copy.deepcopy(v) for k, v in d.items() if _plain(v)}, set(d)))
+        # references to other objects (a memoised "last decoder", say) and containers of objects: remembered by identity
+        refs = {}
+        for k, v in d.items():
+            if _plain(v):
+                continue
+            if isinstance(v, dict):
+                refs[k] = ("dict", v, dict(v))
+            elif isinstance(v, list):
+                refs[k] = ("list", v, list(v))
+            elif not isinstance(v, (set, frozenset, tuple)):
+                refs[k] = ("ref", v, None)
+        _pristine_refs.append((o, refs))
         for v in list(d.values()):
             walk(v, depth + 1)
 
@@ -416,6 +429,16 @@ def begin_run(order_fn, first_packet_id: int = 0) -> FakeSocketModule:
             cur = d.get(k, _MISSING)
             if cur is _MISSING or type(cur) is not type(v) or cur != v:
                 object.__setattr__(o, k, copy.deepcopy(v))
+    for (o, refs) in _pristine_refs:
+        d = o.__dict__
+        for k, (kind, live, shallow) in refs.items():
+            if d.get(k, _MISSING) is not live:
+                object.__setattr__(o, k, live)
+            if kind == "dict" and (len(live) != len(shallow) or any(live.get(kk, _MISSING) is not vv for kk, vv in shallow.items())):
+                live.clear()
+                live.update(shallow)
+            elif kind == "list" and (len(live) != len(shallow) or any(a is not b for a, b in zip(live, shallow))):
+                live[:] = shallow
     for reg in (pa.at4.comms.registry.INSTANCE, pa.at5.comms.registry.INSTANCE):
         hf = reg.header_factory
         if not hasattr(hf, "_next_packet_id"):
